@@ -28,6 +28,34 @@ fn float_value(rng: &mut Rng) -> f64 {
     }
 }
 
+/// a sample lying exactly on (or one rounding step beside) the Hampel decision bound for the window `win`:
+/// median +- threshold * 1.4826 * spread, computed in the sample type's own arithmetic and operation order
+fn on_the_bound(rng: &mut Rng, t: &str, win: &[f64], thr: f64) -> f64 {
+    let mut sorted: Vec<f64> = win.iter().copied().filter(|v| !v.is_nan()).collect();
+    if sorted.is_empty() {
+        return 0.0;
+    }
+    sorted.sort_by(|a, b| a.partial_cmp(b).unwrap());
+    let med = sorted[(sorted.len() - 1) / 2];
+    let last = *win.last().unwrap();
+    let spread = match rng.below(3) {
+        0 => med - sorted[0],
+        1 => (last - med).abs(),
+        _ => (med - sorted[0]).max(sorted[sorted.len() - 1] - med),
+    };
+    let sign = if rng.chance(1, 2) { 1.0 } else { -1.0 };
+    let x = if t == "f64" {
+        med + sign * ((spread * 1.4826f64) * thr)
+    } else {
+        (med as f32 + sign as f32 * ((spread as f32 * 1.4826f32) * thr as f32)) as f64
+    };
+    match rng.below(6) {
+        0 => x + sign * x.abs() * 1e-7, // just outside
+        1 => x - sign * x.abs() * 1e-7, // just inside
+        _ => x,
+    }
+}
+
 /// C18
 pub fn gen_hampel(rng: &mut Rng, tier: &Tier) -> Vec<Case> {
     let mut cases = Vec::new();
@@ -50,13 +78,27 @@ pub fn gen_hampel(rng: &mut Rng, tier: &Tier) -> Vec<Case> {
                 let mut c = vec![format!("new 1 hampel N={} thr={} T={}", n, fb(t, thr), t), "cfg 1".to_string()];
                 // mostly slowly varying signal with outliers
                 let base = float_value(rng);
+                let dyadic = rng.chance(1, 2);
+                let mut win: Vec<f64> = Vec::new(); // the raw samples in the window, oldest first
                 for _ in 0..rng.range(1, 3 * n as i64 + 4) {
-                    let x = match rng.below(4) {
+                    let mut x = match rng.below(5) {
                         0 => float_value(rng),
                         1 => base,
+                        2 if !win.is_empty() && thr > 0.0 => on_the_bound(rng, t, &win, thr),
+                        _ if dyadic => rng.range(-4, 4) as f64,
                         _ => base + rng.range(-8, 8) as f64 / 8.0,
                     };
+                    if rng.chance(1, 60) {
+                        x = if rng.chance(1, 2) { -0.0 } else { f64::NAN };
+                    }
+                    if t == "f32" {
+                        x = x as f32 as f64;
+                    }
                     c.push(format!("f 1 {}", fb(t, x)));
+                    win.push(x);
+                    if win.len() > n {
+                        win.remove(0);
+                    }
                 }
                 cases.push(c);
             }
